@@ -14,4 +14,19 @@ ExactCover(size, t, shorten) == Covered(size, t, shorten) = 0..(size - 1)
 DisjointPieces(size, t, shorten) == \A i, j \in Starts(size, t) : i # j => Piece(size, t, i, shorten) \cap Piece(size, t, j, shorten) = {}
 TeamSuffices(size, t) == Cardinality(Starts(size, t)) <= Threads(t)       \* one iteration per team member at most
 ParOk(size, t) == ExactCover(size, t, TRUE) /\ DisjointPieces(size, t, TRUE) /\ TeamSuffices(size, t)
+
+(* Delivery environments.  The thread-count argument is a REQUEST: the team the runtime delivers for the region may be
+   smaller.  env 0: plain call; env 1: the call is made from inside an active parallel region (nesting is off: the region gets
+   a team of ONE); env 2 / 3: the process-wide thread-count setting is 1 / 5 when the call starts (the request of the call
+   itself prevails).  The iterations of the loop are shared out among whatever team there is - iteration number j to member
+   j mod team, or any other assignment - so what is transferred does not depend on the team: in every environment exactly
+   0 .. size-1. *)
+Envs == 0..3
+Team(t, env) == IF env = 1 THEN 1 ELSE Threads(t)
+MemberStarts(size, t, team, m) == {i \in Starts(size, t) : ((i \div Chunk(size, t)) % team) = m}
+CoveredBy(size, t, team) == UNION {Piece(size, t, i, TRUE) : i \in UNION {MemberStarts(size, t, team, m) : m \in 0..(team - 1)}}
+DeliveryOk(size, t, team) == CoveredBy(size, t, team) = 0..(size - 1)
+(* the scheme that is NOT the specification: one piece per team member, numbered by the member - whole only when the team has
+   a member for every piece *)
+PiecePerMember(size, t, team) == UNION {Piece(size, t, m * Chunk(size, t), TRUE) : m \in {j \in 0..(team - 1) : j * Chunk(size, t) < size}}
 ====
